@@ -73,6 +73,30 @@ if SYMBOLIC:
 
     _xc.register_patch(_bi.vars, _vars)
 
+    # -- shim 4: str(symbolic int) -----------------------------------------------------------------------
+    # CrossHair's str() patch dispatches to object.__str__, which calls repr() in C and rejects the lazy
+    # symbolic string SymbolicInt.__repr__ returns ("__repr__ returned non-string").  Return that lazy
+    # string directly: str(int) is repr(int).
+    from crosshair.libimpl.builtinslib import SymbolicInt as _SymInt
+
+    _str_patch = _xc._PATCH_REGISTRATIONS.get(str)
+
+    def _str(*a):
+        with NoTracing():
+            one = a.__len__() == 1
+            symint = one and isinstance(a[0], _SymInt)
+            if not one:
+                return str(*deep_realize(a))  # str(), str(b, enc[, errors]): rare, realised
+            container = one and type(a[0]) in (list, tuple, dict, set, frozenset)
+        if symint:
+            return a[0].__repr__()
+        if container:
+            return repr(a[0])  # str(container) is repr(container); repr is modelled element-wise
+        return _str_patch(*a)
+
+    if _str_patch is not None:
+        _xc._PATCH_REGISTRATIONS[str] = _str
+
     # -- solver statistics ------------------------------------------------------------------------------
     _orig_check = z3.Solver.check
 
